@@ -94,6 +94,11 @@ def run_case(rec, case):
             cmpv(rname, lambda: O @ x, M.astype(float) @ x, aM @ np.abs(x), {'arg': 'vector@'})
             cmpv(rname if tname else 'matmat', lambda: O.dot(x[:, None]), (M.astype(float) @ x)[:, None], (aM @ np.abs(x))[:, None], {'arg': 'column'})
             cmpv(rname if tname else 'matmat', lambda: O @ X, M.astype(float) @ X, aM @ np.abs(X), {'arg': 'matrix'})
+            # arguments that are not float64 (unit vectors typed as integers, masks): the product is the real-valued one all the same
+            xi = rng.integers(-3, 4, size=M.shape[1])
+            cmpv(rname, lambda: O.dot(xi), M.astype(float) @ xi, aM @ np.abs(xi), {'arg': 'int vector'})
+            xb = rng.integers(0, 2, size=M.shape[1]).astype(bool)
+            cmpv(rname, lambda: O.dot(xb), M.astype(float) @ xb.astype(float), aM @ xb.astype(float), {'arg': 'bool vector'})
 
     okinds = ['ndarray', 'csr', 'csc', 'linop', 'pyiga']
     if kind == 'null':
@@ -178,10 +183,18 @@ def run_case(rec, case):
             A = rng.standard_normal((n, n))
             if flavour == 'spd': A = A @ A.T + n * np.eye(n)
             elif flavour == 'symmetric': A = A + A.T + (2 * n) * np.diag(rng.choice([-1.0, 1.0], n))      # symmetric, in general indefinite
+            elif flavour == 'saddle':
+                # [[eps*I, B^T], [B, -C]] with the tiny block first: symmetric indefinite, small pivots on the diagonal, well conditioned
+                k = max(1, n // 2); m_ = n - k if n > 1 else 0
+                B = rng.standard_normal((m_, k)) + (np.eye(m_, k) * 2 if m_ else 0)
+                Cb = rng.standard_normal((m_, m_)); Cb = Cb @ Cb.T + np.eye(m_) if m_ else Cb
+                eps = float(rng.choice([0.0, 1e-14, 1e-12, 1e-9]))
+                A = np.block([[eps * np.eye(k), B.T], [B, -Cb]]) if m_ else np.array([[1.0]])
+                if m_ and np.linalg.cond(A) > 1e6: A = A + A.T + (2 * n) * np.diag(rng.choice([-1.0, 1.0], n))
             else: A = A + n * np.eye(n)
             return A
         if kind == 'solver':
-            n = int(rng.integers(1, 9)); flavour = str(rng.choice(['general', 'symmetric', 'spd'])); sparse = bool(rng.integers(0, 2))
+            n = int(rng.integers(1, 9)); flavour = str(rng.choice(['general', 'symmetric', 'spd', 'saddle'])); sparse = bool(rng.integers(0, 2))
             A = rand_solvable(n, flavour)
             sig.update(flavour=flavour, sparse=sparse)
             Aop = scipy.sparse.csr_matrix(A) if sparse else A
